@@ -132,7 +132,7 @@ public:
         _svc_ptr->async_send(
             wire_data,
             no_serial, send_flag::none,
-            asio::consign(asio::detached, std::move(packet))
+            asio::consign(asio::detached, std::move(packet), _svc_ptr)
         );
     }
 
